@@ -13,14 +13,14 @@ mut = json.load(open(f"{V}/mutants/index.json"))
 seeds = {}
 for d in sorted(glob.glob(f"{V}/seeded/*")):
     m = json.load(open(d + "/meta.json")); seeds.setdefault(m["property"], []).append((os.path.basename(d), m))
-new_rules = set("C01/REC-anyvar C20/REC-copy C13/FLOW-forced C14/FLOW-unwrap C05/REC-oftype C03/EXH-lineterm-scan C18/EXH-lineterm C18/FLOW-column C18/OWN-path C10/PAIR-append C11/DOM-identity C05/PAIR-fieldloop C06/FLOW-wrappers C08/FLOW-shortform C17/FLOW-recovered C15/FLOW-rawargs C16/DOM-caller C20/PAIR-occurrence C01/FLOW-mergedsub C02/TAB-registrations C01/FLOW-bothdirs C02/FLOW-leafconflict C03/EXH-ascii C04/FLOW-walked C05/DOM-intreturn C05/FLOW-listlen C07/PAIR-once C07/OWN-reslice C08/FLOW-format C09/FLOW-data C11/PAIR-parked C11/PAIR-implloops C12/OWN-errors C13/DOM-nosort C14/DOM-skipenter C15/PAIR-visited C17/FLOW-live C18/FLOW-errpath C18/FLOW-lookahead C19/FLOW-memoadd C19/REC-loopset".split())
+new_rules = set("C01/REC-anyvar C20/REC-copy C13/FLOW-forced C14/FLOW-unwrap C05/REC-oftype C03/EXH-lineterm-scan C18/EXH-lineterm C18/FLOW-column C18/OWN-path C10/PAIR-append C11/DOM-identity C05/PAIR-fieldloop C06/FLOW-wrappers C08/FLOW-shortform C17/FLOW-recovered C15/FLOW-rawargs C16/DOM-caller C20/PAIR-occurrence C01/FLOW-mergedsub C02/TAB-registrations C01/FLOW-bothdirs C02/FLOW-leafconflict C03/EXH-ascii C04/FLOW-walked C05/DOM-intreturn C05/FLOW-listlen C07/PAIR-once C07/OWN-reslice C08/FLOW-format C09/FLOW-data C11/PAIR-parked C11/PAIR-implloops C12/OWN-errors C13/DOM-nosort C14/DOM-skipenter C15/PAIR-visited C17/FLOW-live C18/FLOW-errpath C18/FLOW-lookahead C19/FLOW-memoadd C19/REC-loopset C17/FLOW-hookerrs C16/FLOW-walkerctx C13/EXH-walkall C14/DOM-kindfirst C12/FLOW-memokey C11/DOM-tablefresh C06/FLOW-plainkey C06/DOM-fporder C02/TAB-dirlocation C10/DOM-metafirst C10/FLOW-typeslist C07/OWN-escape C09/DOM-ctxnil C03/PAIR-prevend".split())
 s = open(f"{V}/DESIGN.md").read()
 s = re.sub(r"\n<!-- asbuilt:(C\d\d) -->.*?<!-- /asbuilt:\1 -->\n", "\n", s, flags=re.S)
 for i in range(1, 21):
     pid = f"C{i:02d}"
     mine = [r for r in rules if pid in r["props"]]
     lines = [f"<!-- asbuilt:{pid} -->", f"**As built ({pid}).** `bin/check {pid} quick|thorough` runs {len(mine)} rules "
-             f"(† = added after the design round, see §8.1 and §8.2; rules filed under another property's prefix decide a clause of this one too):", ""]
+             f"(† = added after the design round, see §8.1, §8.2 and §8.3; rules filed under another property's prefix decide a clause of this one too):", ""]
     lines += ["| rule | min. instances | decides |", "|---|---|---|"]
     for r in mine:
         lines.append(f"| `{r['name']}`{' †' if r['name'] in new_rules else ''} | {r['min']} | {r['doc']} |")
